@@ -387,9 +387,11 @@ Proof.
       rewrite (n_p2_trigs s s2 Etr) in G. rewrite (n_p3_trigs s s2 Etr) in I.
       destruct q.
       * eapply astep_eq; [apply A_decU|].
-        unfold view; apply mkA_eq; rewrite ?A, ?E, ?F, ?G, ?I, ?J1, ?J2, ?K, ?Esh; cbn; first [lia | reflexivity].
+        unfold view; apply mkA_eq; rewrite ?A, ?E, ?F, ?G, ?I, ?J1, ?J2, ?K, ?Esh;
+          cbn [sh_qlen qlen flag eff_edge edge efd_cnt itemsU itemsL lenU lenL]; first [lia | reflexivity].
       * eapply astep_eq; [apply A_decL|].
-        unfold view; apply mkA_eq; rewrite ?A, ?E, ?F, ?G, ?I, ?J1, ?J2, ?K, ?Esh; cbn; first [lia | reflexivity].
+        unfold view; apply mkA_eq; rewrite ?A, ?E, ?F, ?G, ?I, ?J1, ?J2, ?K, ?Esh;
+          cbn [sh_qlen qlen flag eff_edge edge efd_cnt itemsU itemsL lenU lenL]; first [lia | reflexivity].
   - (* CStore *)
     inv H. splits; [split; assumption|exact Hc|apply loop_ok_intro; [exact Hidle|exact Hch]|].
     src Epc. eapply astep_eq; [apply A_store|]. tgt.
@@ -600,14 +602,14 @@ Proof. intros. unfold AInv, view; cbn. unfold KW, KB, KChkL, KChkU, KCas, KWr. l
 Theorem winv_reachable : forall s, reachable wk_init wk_step s -> sane s -> winv s.
 Proof.
   intros s R. induction R as [s [thr [max Hi]]|s l s' R IH Hs]; intro Sn.
-  - subst s. splits.
-    + unfold cnt_ok. cbn [init_state w_sh efd_cnt]. lia.
+  - subst s. unfold winv. splits.
+    + unfold cnt_ok, init_state. cbn [w_sh efd_cnt]. lia.
     + apply loop_ok_intro; reflexivity.
     + apply AInv_init.
   - destruct l as [[t c] o]. unfold wk_step in Hs. cbn [fst snd] in Hs.
     pose proof (sane_back _ _ _ _ _ Hs Sn) as Sb.
     destruct (IH Sb) as (Hc & Lk & AI).
     destruct (wstep_astep _ _ _ _ _ Hs Sn Hc Lk) as (_ & C1 & L1 & AS).
-    splits; [exact C1|exact L1|].
+    unfold winv. splits; [exact C1|exact L1|].
     eapply astep_preserves; [apply wf_view|apply wf_view|exact AI|exact AS].
 Qed.
